@@ -530,6 +530,17 @@ func (f *nilFn) structuralExempt(e ast.Expr, store bool) (string, bool) {
 	for _, d := range f.e.c.P.Locals(f.fi).Defs[holder] {
 		if d.Kind == core.DefTypeSwitch {
 			fromSwitch = true
+			// the reason given holds for values resolved from an analyzer key only: a value resolved from a $ref
+			// of the document (Ref.GetPointer().Get) can designate an `items` / `additionalProperties` without schema
+			if vo := core.ObjOf(f.info, d.Expr); vo != nil {
+				for _, vd := range f.e.c.P.Locals(f.fi).Defs[vo] {
+					if call, ok := core.Unparen(vd.Expr).(*ast.CallExpr); ok {
+						if callee := f.e.c.P.CalleeAny(f.fi, call); callee != nil && f.e.c.P.Funcs[callee] == nil {
+							fromSwitch = false
+						}
+					}
+				}
+			}
 		}
 	}
 	if _, isParam := f.params[holder]; isParam {
